@@ -3,7 +3,7 @@
 From Coq Require Import ZArith List ExtrOcamlBasic.
 From Coq Require Extraction.
 From Flocq Require Import Core IEEE754.BinarySingleNaN IEEE754.Binary IEEE754.Bits.
-From GV Require Import Gen.Facts Gen.StreamOps Model.StreamIR Model.StreamSem Model.Timeout
+From GV Require Import Gen.Facts Gen.FactsC05 Gen.StreamOps Model.StreamIR Model.StreamSem Model.Timeout
      Model.Deadline Model.ServerDeadline.
 Extraction Language OCaml.
 Definition force_types : Z * N * nat := (Z.of_N (N.of_nat (Z.to_nat 0%Z)), 0%N, 0%nat).
